@@ -30,5 +30,6 @@ extern struct kv_op kv_ops_dp[];
 extern struct kv_op kv_ops_sys[];
 extern struct kv_op kv_ops_misc[];
 extern struct kv_op kv_ops_ref[];
+extern struct kv_op kv_ops_kmeans[];
 
 #endif
